@@ -109,6 +109,7 @@ def list_maps(st, elem_ty):
     es = elem_ty.sort()
     r = z3.Int("r!wf")
     j = z3.Int("j!wf")
+    smt.add_extra(f"LLO0.{k}", z3.ForAll([r], _init_map(f"LLO.{k}", smt.Int, smt.Int)[r] == 0))
     w = _wf_value(elem_ty, _init_map(f"LA.{k}", smt.Int, z3.ArraySort(smt.Int, es))[r][j])
     if w is not None:
         smt.add_extra(f"LA.{k}", z3.ForAll([r, j], w))
@@ -244,35 +245,66 @@ class ObjView:
         return self.z == unview(other)
 
 
+def _plus(a, b):
+    """a + b without building `0 + k` terms (keeps quantifier triggers free of arithmetic)"""
+    if isinstance(a, int):
+        a = z3.IntVal(a)
+    if isinstance(b, int):
+        b = z3.IntVal(b)
+    if z3.is_int_value(a) and a.as_long() == 0:
+        return b
+    if z3.is_int_value(b) and b.as_long() == 0:
+        return a
+    if z3.is_int_value(a) and z3.is_int_value(b):
+        return z3.IntVal(a.as_long() + b.as_long())
+    return a + b
+
+
+def _minus(a, b):
+    if isinstance(b, int):
+        b = z3.IntVal(b)
+    if z3.is_int_value(b) and b.as_long() == 0:
+        return a
+    if z3.is_int_value(a) and z3.is_int_value(b):
+        return z3.IntVal(a.as_long() - b.as_long())
+    return a - b
+
+
 class ListView:
     def __init__(self, st, z, elem):
         self.st, self.z, self.elem = st, z, elem
 
     @property
     def arr(self):
-        return list_maps(self.st, self.elem)[0][self.z]
+        return z3.simplify(list_maps(self.st, self.elem)[0][self.z])
 
     @property
     def lo(self):
-        return list_maps(self.st, self.elem)[1][self.z]
+        # Representation choice for the pre-state: every list that exists on entry has its window
+        # starting at 0 (a Python list has no `lo`; pop(0) and slices move it afterwards).
+        t = z3.simplify(list_maps(self.st, self.elem)[1][self.z])
+        if z3.is_select(t) and z3.is_const(t.arg(0)) and t.arg(0).decl().name().endswith("@0"):
+            return z3.IntVal(0)
+        return t
 
     @property
     def hi(self):
-        return list_maps(self.st, self.elem)[2][self.z]
+        return z3.simplify(list_maps(self.st, self.elem)[2][self.z])
 
     @property
     def len(self):
-        return self.hi - self.lo
+        return _minus(self.hi, self.lo)
 
     def __getitem__(self, k):
         if isinstance(k, int) and k < 0:
             return view(self.st, unpack(self.elem, self.arr[self.hi + k]))
-        return view(self.st, unpack(self.elem, self.arr[self.lo + k]))
+        return view(self.st, unpack(self.elem, self.arr[_plus(self.lo, k)]))
 
     def cum(self, k):
         """total length of the first k rows"""
         p = smt.prefix(self.arr)
-        return p[self.lo + k] - p[self.lo]
+        lo = self.lo
+        return p[_plus(lo, k)] - p[lo]
 
     def forall(self, body, lo=0, hi=None, name="k"):
         k = smt.fresh(name, smt.Int)
